@@ -28,6 +28,7 @@ type MsgOpts struct {
 	ValidStatus bool // replies use status codes 100..699 only
 	ManyHdrs    bool // 10..50 additional header lines (long header blocks)
 	ManyMax     int  // upper bound for ManyHdrs (0: 50)
+	Canonical   bool // first lines exactly as RFC 3261 writes them: version "SIP/2.0", status 100..699
 }
 
 type hdrKind struct {
@@ -144,11 +145,13 @@ func (g *G) Msg(o MsgOpts) MsgSpec {
 	if method == "" {
 		method = g.Method()
 	}
-	if req == 1 {
+	if req == 1 && o.Canonical {
+		m.FLine = method + " " + g.URI(false) + " SIP/2.0"
+	} else if req == 1 {
 		m.FLine = method + " " + g.URI(false) + " " + g.R.Pick([]string{"SIP/2.0", "SIP/2.0", "sip/2.0", "SIP/3.0"})
 	} else {
 		code := g.R.Intn(1000)
-		if o.ValidStatus {
+		if o.ValidStatus || o.Canonical {
 			code = g.R.Range(100, 699)
 		}
 		reason := ""
@@ -164,7 +167,11 @@ func (g *G) Msg(o MsgOpts) MsgSpec {
 			// a status "number" with a non-digit in it: must be rejected
 			st[g.R.Intn(3)] = ":;A/ z~"[g.R.Intn(7)]
 		}
-		m.FLine = g.R.Pick([]string{"SIP/2.0", "SIP/2.0", "sip/2.0", "Sip/2.0"}) + " " + string(st) + " " + reason
+		ver := g.R.Pick([]string{"SIP/2.0", "SIP/2.0", "sip/2.0", "Sip/2.0"})
+		if o.Canonical {
+			ver = "SIP/2.0"
+		}
+		m.FLine = ver + " " + string(st) + " " + reason
 	}
 	m.FTerm = "\r\n"
 	m.Blank = "\r\n"
